@@ -234,12 +234,18 @@ func (g *vgen) verifier() *Node {
 }
 
 func (g *vgen) leaf() *Node {
-	if g.rng.Intn(100) < 88 {
+	x := g.rng.Intn(100)
+	if x < 82 {
 		return g.verifier()
 	}
 	n := &Node{Kind: KNoop, A: map[string]string{"name": "n"}}
-	if g.rng.Intn(2) == 0 {
+	if x < 94 {
 		n = &Node{Kind: KProbe, A: map[string]string{"id": "pr" + strconv.Itoa(g.nv)}}
+		if x < 90 {
+			// a sibling modifier that fails: it stops a non-aggregating group (the verifiers
+			// listed after it are not evaluated), an aggregating one goes on
+			n.ErrOn = [][]Kind{{Req}, {Res}, {Req, Res}}[g.rng.Intn(3)]
+		}
 	}
 	n.Scope = g.scope(n.Kind)
 	return n
